@@ -1991,3 +1991,38 @@ def _set_contains(m, a, c):
      "std::collections::HashSet::<T, S>::iter")
 def _set_iter(m, a, c):
     return PyIter(list(deref(a[0]).items))
+
+
+# ---- char / u8 ASCII helpers ---------------------------------------------------------------------
+
+def _ascii_fn(name):
+    def h(m, a, c):
+        v = deref(a[0])
+        isint = isinstance(v, int) and not isinstance(v, bool)
+        ch = chr(v) if isint else v
+        if not isinstance(ch, str) or len(ch) != 1:
+            raise Unsupported("%s on %r" % (name, v))
+        asc = ord(ch) < 128
+        res = {
+            "to_ascii_lowercase": lambda: ch.lower() if asc else ch,
+            "to_ascii_uppercase": lambda: ch.upper() if asc else ch,
+            "is_ascii": lambda: asc,
+            "is_ascii_digit": lambda: asc and ch.isdigit(),
+            "is_ascii_hexdigit": lambda: asc and ch in "0123456789abcdefABCDEF",
+            "is_ascii_alphabetic": lambda: asc and ch.isalpha(),
+            "is_ascii_alphanumeric": lambda: asc and ch.isalnum(),
+            "is_ascii_lowercase": lambda: asc and ch.islower(),
+            "is_ascii_uppercase": lambda: asc and ch.isupper(),
+            "is_ascii_whitespace": lambda: ch in " \t\n\x0c\r",
+        }[name]()
+        if isint and isinstance(res, str):
+            return ord(res)
+        return res
+    return h
+
+
+for _nm in ["to_ascii_lowercase", "to_ascii_uppercase", "is_ascii", "is_ascii_digit", "is_ascii_hexdigit",
+            "is_ascii_alphabetic", "is_ascii_alphanumeric", "is_ascii_lowercase", "is_ascii_uppercase",
+            "is_ascii_whitespace"]:
+    TABLE["std::char::methods::<impl char>::" + _nm] = _ascii_fn(_nm)
+    TABLE["core::num::<impl u8>::" + _nm] = _ascii_fn(_nm)
